@@ -49,6 +49,8 @@ def tasks(tier, seed):
         T.append(('sweeper', M, 'imex'))
         if M >= 2:
             T.append(('sweeper', M, 'implicit', True))  # G_inv installed with set_G_inv after construction
+            T.append(('sweeper', M, 'implicit', False, 0.25))  # applied once with step size 0.25, then with the judged one
+            T.append(('sweeper', M, 'imex', M == 2, 0.04))
     for (M, L, alpha) in (((2, 2, 1e-2), (2, 3, 1e-4), (1, 3, 0.5), (3, 2, 1e-2), (2, 5, 1e-10), (1, 6, 1e-9)) if quick else ((2, 2, 1e-2), (2, 3, 1e-4), (1, 3, 0.9), (3, 2, 1e-2), (2, 4, 1e-3), (3, 3, 1e-6), (1, 5, 0.5), (2, 5, 1e-10), (1, 7, 1e-9), (1, 8, 1e-10), (2, 4, 1e-12))):
         T.append(('iteration', M, L, alpha))
     for (M, L, alpha) in (((1, 2, 0.5), (2, 3, 1e-2), (1, 4, 1e-4)) if quick else ((1, 2, 0.5), (2, 3, 1e-2), (1, 4, 1e-4), (2, 5, 1e-6), (3, 4, 1e-3))):
@@ -70,7 +72,7 @@ def run_task(rep, task):
     elif task[0] == 'sweeper':
         from harness.c02_rk import diag_case
 
-        diag_case(rep, task[1], task[2], reconf=(len(task) > 3 and bool(task[3])))
+        diag_case(rep, task[1], task[2], reconf=(len(task) > 3 and bool(task[3])), dt_first=(task[4] if len(task) > 4 else None))
     elif task[0] == 'iteration':
         iteration_case(rep, *task[1:])
     elif task[0] == 'roundtrip':
@@ -493,6 +495,18 @@ def replay(path):
         dev = max(abs(complex(ctl.MS[l].levels[0].residual[m][0]) - complex(env[f'xr_{l}_{m}'], env[f'xi_{l}_{m}'])) for l in range(L) for m in range(M))
         print('deviation of backward(forward(x)) from x', dev)
         bad = dev > 1e-7
+    elif t[0] == 'diag':
+        from harness.c02_rk import diag_run
+
+        M, kind, reconf = t[1], t[2], bool(t[3])
+        dt_first = t[4] if len(t) > 4 else None
+        G = np.eye(M) + (np.triu(np.full((M, M), 0.25), 1) if reconf else 0)
+        x = complex(*d['u0'])
+        Lf = diag_run(M, kind, d['dt'], d['lam'], d['lamE'], x, float_mode=True, reconf=(np.linalg.inv(G) if reconf else None), dt_first=dt_first)
+        Uf = np.array([complex(Lf.u[m][0]) for m in range(1, M + 1)])
+        defect = G @ Uf - x - d['dt'] * (d['lam'] + d['lamE']) * (Lf.sweep.coll.Qmat[1:, 1:] @ Uf)
+        print('collocation defect after one application of the diagonalisation sweeper', np.abs(defect).tolist())
+        bad = float(np.max(np.abs(defect))) > 1e-8
     else:
         print(d)
         bad = True
